@@ -3,8 +3,8 @@ CONSTANTS
   Kinds = {"fast_dyn", "fast_static"}
   Arities = {1, 3}
   NXs = {0}
-  K = 3
-  MaxHist = 3
+  K = 2
+  MaxHist = 4
   HasErase = TRUE
   Mutation = "none"
 CONSTRAINT Bound
